@@ -132,6 +132,19 @@ def gen_random(rng, n, big=True):
             c.update(params(rng))
             c["luby_factor"] = rng.choice([1, 3])
             c["limit"] = rng.choice([1, 1, 2, 5])
+        if rng.random() < 0.12:
+            # a == b written as two binaries, FOLLOWED by (a or b) (together: a and b are both true), with other clauses in between
+            # and something that invites the search to try a = b = false; enumeration makes every model get checked
+            vs = sorted({abs(x) for cl in c["clauses"] for x in cl})
+            if len(vs) >= 2:
+                a, b = rng.sample(vs, 2)
+                trio = [[a, -b], [-a, b], [a, b]]
+                if rng.random() < 0.5:
+                    trio[0], trio[1] = trio[1], trio[0]
+                pos = sorted(rng.randint(0, len(c["clauses"])) for _ in range(3))
+                for off, (pp, cl) in enumerate(zip(pos, trio)):
+                    c["clauses"].insert(pp + off, [cl[1], cl[0]] if rng.random() < 0.5 else cl)
+                c["limit"] = rng.choice([1, 10, 100])
         if rng.random() < 0.2:
             # a literal written twice in a two-literal clause is a unit constraint in disguise
             vs = sorted({abs(x) for cl in c["clauses"] for x in cl}) or [1]
